@@ -19,7 +19,7 @@ var explicitQuick = []explicitDim{{"omit", ""}, {"set", ""}, {"set", "explicit-1
 var explicitThorough = append(append([]explicitDim{}, explicitQuick...),
 	explicitDim{"set", "9x_y-z"}, explicitDim{"set", "UPPER"}, explicitDim{"set", "has space"}, explicitDim{"set", "-dash"})
 
-var dirsQuick = []string{"plain", "UPPER_Case", "my.app.v2", "_-lead", "!!!", "日本ü"}
+var dirsQuick = []string{"plain", "UPPER_Case", "my.app.v2", "_-lead", "!!!", "日本ü", "._myapp"}
 var dirsThorough = append(append([]string{}, dirsQuick...),
 	"My App", "9lives", "a_b-c", "x", "...", "-dash", "ünï-çode", "@home+work", "__")
 
@@ -115,6 +115,9 @@ func nameShapes() []nameShape {
 		{"normalisable", []string{"from-first", "My App.v2"}, []bool{t, t}, []string{"from-first", "My App.v2"}, nil},
 		{"interp-normalisable", []string{"", "${C17_PN}"}, []bool{f, t}, []string{"", "Web_Site!"}, [][3]string{{"os", "C17_PN", "Web_Site!"}}},
 		{"leading-symbols", []string{"", "-_Lead"}, []bool{f, t}, []string{"", "-_Lead"}, nil},
+		{"invalid-before-leading-symbol", []string{"", "._Lead"}, []bool{f, t}, []string{"", "._Lead"}, nil},
+		{"interp-invalid-before-dash", []string{"", "${C17_UNSET:-}/-api"}, []bool{f, t}, []string{"", "/-api"}, nil},
+		{"dot-dash-normalises-empty", []string{"from-first", ".-"}, []bool{t, t}, []string{"from-first", ".-"}, nil},
 		{"last-normalises-empty", []string{"", "!!!"}, []bool{f, t}, []string{"", "!!!"}, nil},
 		{"last-normalises-empty-first-ok", []string{"from-first", "!!!"}, []bool{t, t}, []string{"from-first", "!!!"}, nil},
 		{"first-normalises-empty", []string{"__--", ""}, []bool{t, f}, []string{"__--", ""}, nil},
